@@ -4,7 +4,7 @@ BASELINE_OFF = ("cd /repo && cargo nextest run --workspace --no-fail-fast --offl
                 "|| cargo test --workspace --no-fail-fast --offline")
 
 HOOK_COMMITS = [
-    "50201a0",
+    "50201a0", "d3f199e", "acd85d7", "e72a8b2", "eac93cc",
     # filled by hand after each hook commit in /repo:  git -C /repo log --grep '^hook:' --format=%h
 ]
 
@@ -26,6 +26,44 @@ NA_REASON = {
 NOT_YET = "check not built yet in this session (planned, see DESIGN.md); not claimed until its obligations discharge"
 
 CHECKS = {
+    "C02": dict(
+        engine="E2-planval",
+        category="translation_validation",
+        text=("Translation validation of rule compilation: the real lowering, planner and semi-naive variant construction run on "
+              "an enumerated set of rule bodies (<= 4 atoms, arity <= 3; chains, stars, cycles, self-joins, repeated variables, "
+              "constants, merge functions with functional dependencies) x size profiles x both :no-decomp settings; a "
+              "cfg(egglog_verif) hook dumps the plans and variant requests they produced; z3 executes each dumped plan "
+              "symbolically over a symbolic database and decides, for EVERY database within the bounds, that the plan emits "
+              "exactly the matches of the source body (no spurious match; no new match lost). Solver witnesses are replayed "
+              "through the real binary before being reported."),
+        design_ref="DESIGN.md §2 C02, §3.2",
+        note=("Bounds: <= 3 rows per table, values in [0,4), arbitrary timestamps and subsume flags, keys unique. Trusted: the "
+              "~150-line stage semantics in lib/e2/model.py (cross-checked against the real executor on every generated program), "
+              "z3. Outside: executor internals, bodies beyond the enumeration, eq-sort constructors, containers, primitive filters."),
+        technique="SMT (z3) translation validation of the plans emitted by the real planner, over a symbolic database; witnesses replayed on the real binary",
+    ),
+    "C16": dict(
+        category="model_checking",
+        text=("Bounded model checking (Kani/CBMC) of the table store's index / scan kernels from arbitrary symbolic states: "
+              "DisplacedTable::{timestamp_bounds, fast_subset, expand, eval, get_row_column, clear}, "
+              "SortedOffsetSlice::{scan_for_offset, binary_search_from}, SubsetRef::iter_bounded (dense and sparse), "
+              "Subset::intersect (all four arms). Each harness is one SAT query over every state within the bounds and asserts the "
+              "kernel against a row-by-row specification."),
+        design_ref="DESIGN.md §2 C16",
+        note=("Kernel level: <= 3 displaced rows, forest of 4 ids, sorted slices <= 6. Outside: whole-table operation sequences, "
+              "hash point lookups with symbolic keys, insert/delete/rehash/compaction, Index::refresh, clone."),
+        technique="bounded model checking of the real Rust code with Kani/CBMC (SAT) from symbolic data-structure states",
+    ),
+    "C01": dict(
+        category="model_checking",
+        text=("Kernel-level bounded model checking (Kani/CBMC) of what congruence closure rests on: the canonicaliser "
+              "Canonicalizer::rebuild_buf (all hand-specialised arms) and rebuild_val rewrite exactly the listed columns to their "
+              "union-find representatives for every forest of 4 ids and every row; the union-find itself is C17."),
+        design_ref="DESIGN.md §2 C01",
+        note=("Kernel level only. Outside: EGraph::rebuild's fixpoint loop, congruence through key collisions in SortedWritesTable, "
+              "matching modulo equality, UnionId merge kernel until the bridge harness lands."),
+        technique="bounded model checking of the real Rust code with Kani/CBMC (SAT) from symbolic union-find forests and rows",
+    ),
     "C17": dict(
         category="model_checking",
         text=("Bounded model checking (Kani/CBMC) of the real UnionFind::{union,find,find_naive,reserve,reset}: each harness "
@@ -74,6 +112,8 @@ def build():
         "engines": [
             {"name": "E1-kani", "path": "/verif/kani", "serves_properties": sorted(p for p in CHECKS if "kani" in CHECKS[p].get("engine", "E1-kani")),
              "kind_free_text": "Kani 0.68 / CBMC 6.11 proof harnesses included into the real crates under cfg(kani)"},
+            {"name": "E2-planval", "path": "/verif/lib/e2", "serves_properties": sorted(p for p in CHECKS if CHECKS[p].get("engine") == "E2-planval"),
+             "kind_free_text": "z3 translation validation of plans dumped from the real planner (hook sources in /verif/engines/dump)"},
         ],
         "checks": checks,
         "notes": "Solver-based checking of the real code only; see DESIGN.md. Exit 2 = inconclusive (never reported as success).",
